@@ -107,6 +107,10 @@ fn algebra<S: Sc>(d: &mut Draw) -> Outcome {
     let m: Quaternion<S> = list.iter().cloned().product();
     ensure_eq!(m, ((one * p) * q) * r, "product-values", "Product over values");
     ensure_eq!(list[..1].iter().sum::<Quaternion<S>>(), p, "sum-single", "sum of one quaternion");
+    ensure_eq!(list.iter().filter(|_| true).sum::<Quaternion<S>>(), ((zero + p) + q) + r, "sum-unsized-refs", "Sum over a filtered iterator");
+    ensure_eq!(list.iter().cloned().filter(|_| true).sum::<Quaternion<S>>(), ((zero + p) + q) + r, "sum-unsized-values", "Sum over a filtered iterator of values");
+    ensure_eq!(list.iter().filter(|_| true).product::<Quaternion<S>>(), ((one * p) * q) * r, "product-unsized-refs", "Product over a filtered iterator");
+    ensure_eq!(list.iter().cloned().filter(|_| true).product::<Quaternion<S>>(), ((one * p) * q) * r, "product-unsized-values", "Product over a filtered iterator of values");
     ensure_eq!(list[..1].iter().product::<Quaternion<S>>(), p, "product-single", "product of one quaternion");
     ensure_eq!(list[..0].iter().sum::<Quaternion<S>>(), zero, "sum-empty", "empty sum");
     ensure_eq!(list[..0].iter().product::<Quaternion<S>>(), one, "product-empty", "empty product");
@@ -247,6 +251,29 @@ fn product_f64(d: &mut Draw) -> Outcome {
             ensure!((gotv[i] - wantv[i]).abs() <= 64.0 * f64::EPSILON * (v[0].abs() + v[1].abs() + v[2].abs()) + 1e-300, "q*v-near-unit-f64", "component {} of q*v is {:e}, reference {:e} for the nearly unit q", i, gotv[i], wantv[i]);
         }
     }
+    // the norm and the inverse at every scale at which |q|^2 is still a finite, normal number: scaling by a power of two
+    // is exact, so |2^k q|^2 = 4^k |q|^2 bit for bit and (2^k q) * invert(2^k q) = 1 to rounding, for |k| up to 500
+    {
+        let base = fnormalize4(&p);
+        let k = d.int(-500, 500) as i32;
+        let sc = (2.0f64).powi(k);
+        let sq = mk_q(&[base[0] * sc, base[1] * sc, base[2] * sc, base[3] * sc]);
+        let m2 = mk_q(&base).magnitude2();
+        let want = m2 * sc * sc;
+        ensure!(sq.magnitude2().to_bits() == want.to_bits(), "magnitude2-scaled-f64", "|2^{} q|^2 = {:e}, expected 4^{} |q|^2 = {:e}", k, sq.magnitude2(), k, want);
+        ensure!(sq.magnitude().to_bits() == (mk_q(&base).magnitude() * sc).to_bits() || (sq.magnitude() - mk_q(&base).magnitude() * sc).abs() <= 2.0 * f64::EPSILON * sc, "magnitude-scaled-f64", "|2^{} q| = {:e}", k, sq.magnitude());
+        ensure!(sq.dot(sq).to_bits() == sq.magnitude2().to_bits(), "magnitude2-vs-dot-f64", "magnitude2 != dot(q,q) for q scaled by 2^{}", k);
+        let inv = cgmath::Rotation::invert(&sq);
+        let r = rq(&(sq * inv));
+        ensure!((r[0] - 1.0).abs() <= 32.0 * f64::EPSILON && r[1].abs() + r[2].abs() + r[3].abs() <= 32.0 * f64::EPSILON, "inverse-scaled-f64", "q * invert(q) = {:?} for q of magnitude 2^{}", r, k);
+        // norm multiplicativity with one factor huge and the other tiny
+        let other = mk_q(&[q[0] / sc, q[1] / sc, q[2] / sc, q[3] / sc]);
+        if class != 2 && cq_ != 2 && other.magnitude2().is_normal() {
+            let lhs = (sq * other).magnitude2();
+            let rhs = sq.magnitude2() * other.magnitude2();
+            ensure!(lhs.is_finite() && (lhs - rhs).abs() <= 4096.0 * f64::EPSILON * rhs.abs(), "norm-multiplicative-scaled-f64", "|pq|^2 = {:e} but |p|^2 |q|^2 = {:e} (p of magnitude 2^{}, q of magnitude 2^-{})", lhs, rhs, k, k);
+        }
+    }
     // scalar on the left (primitive floats only) and the remaining scalar forms: exact per component
     let k = if class == 2 { 1.5 } else { d.f64_slog(1e-3, 1e3) };
     let left = rq(&(k * cp));
@@ -276,7 +303,7 @@ pub fn property() -> Property {
     add!("algebra-Fp", "Fp", algebra::<Fp>, 5000, 400_000, 64, &[("generic", 200)]);
     add!("rotation-Q", "Q", rotation::<Q>, 5000, 400_000, 64, &[("generic", 100)]);
     add!("rotation-Fp", "Fp", rotation::<Fp>, 5000, 400_000, 64, &[("generic", 200)]);
-    add!("product_rotation-f64", "f64", product_f64, 8000, 500_000, 96, &[("generic", 100), ("near-one", 100), ("wide-magnitudes", 100), ("unit", 100)]);
+    add!("product_rotation-f64", "f64", product_f64, 8000, 500_000, 112, &[("generic", 100), ("near-one", 100), ("wide-magnitudes", 100), ("unit", 100)]);
     Property {
         id: "C04",
         title: "Quaternions obey Hamilton's algebra and unit quaternions act as rotations",
